@@ -286,6 +286,7 @@ theorem closed_withCb {P : Mem → Prop} (hc : MemClosed P) {s : State} (hi : In
           obtain ⟨hs', hls, hbs, _⟩ := hq.1.2
           apply closed_arc_drop hc hq.2
           rw [← hbs]; exact hq.1.1.not_leaked hls⟩)
+        (fun s t k h2 hq hne hlk _ _ => ⟨hq.1.swap hne hlk, hq.2⟩)
         script s t "" ⟨⟨hi, h, hs, h1.symm, h2⟩, hp⟩
       exact hres
     · exact hp
